@@ -1,5 +1,5 @@
 #!/usr/bin/env python3
-"""Refresh the generated tables of DESIGN.md (§12 status, §13 seeded changes, §7b findings list)
+"""Refresh the generated tables of DESIGN.md (§12 status, §12.0 as-built texts and the list of _partial / _refuted theorems, §12.1 findings, §13 seeded changes)
 from checks/*.json, checks/enabled.txt, seeded/*/meta.json and known_findings.txt."""
 import glob, json, os, re
 root = os.path.join(os.path.dirname(os.path.abspath(__file__)), '..')
@@ -33,7 +33,11 @@ for p in props:
     streams = sorted({st.get('label', st['name']) for c in cfgs for st in c.get('streams', [])})
     oracles = sorted({o.get('name', o['harness']) for c in cfgs for o in c.get('oracles', [])})
     lt = cfgs[0].get('level_text', '')
-    level = 'full' if lt.lower().startswith('full') else ('partial' if lt.lower().startswith('partial') else lt[:40])
+    ll = lt.lower()
+    if ll.startswith('proof (components) + exploration'):
+        level = 'partial: proof (components) + exploration (whole poll)'
+    else:
+        level = 'full' if ll.startswith('full') else ('partial' if ll.startswith('partial') else lt.split(':')[0][:60])
     rows.append('| %s | %s | %d (%s) | %s | %s | %s |' % (cid, 'yes' if cid in enabled else 'not yet', nthm, ', '.join(dict.fromkeys(names)), ', '.join(streams) or '—', ', '.join(oracles) or '—', level))
 block('STATUS', '\n'.join(rows))
 
@@ -60,7 +64,9 @@ for line in open(os.path.join(root, 'known_findings.txt')):
     m = re.match(r'known:\s+property=(\S+)\s+id=(\S+)\s+class=(\S+)\s+--\s+(.*)', line.strip())
     if m:
         known.append('| %s | %s | `%s` | %s |' % (m.group(1), m.group(2), m.group(3), m.group(4).replace('|', '/')[:400]))
-text = '%d defects repaired by `fix:` commits in /repo (the existing 673 tests pass after each), %d recorded as known findings.\n\n' % (len(fixed), len(known))
+commits = sorted({re.match(r'\| \S+ \| `(\S+)`', r).group(1) for r in fixed})
+text = ('%d `fixed:` entries naming %d distinct `fix:` commits in /repo (one commit can repair what several properties reported, so it '
+        'appears once per property; the existing 673 tests pass after each commit), %d recorded as known findings.\n\n' % (len(fixed), len(commits), len(known)))
 text += '| property | /repo commit | what failed |\n|---|---|---|\n' + '\n'.join(fixed)
 text += '\n\nKnown findings (not repaired; the check prints KNOWN-FINDING and still fails on any other class):\n\n| property | id | oracle class | what fails |\n|---|---|---|---|\n' + '\n'.join(known)
 block('FINDINGS', text)
@@ -80,6 +86,32 @@ for pr in props:
         txt.append('  *Not modelled / residue:* ' + nm.strip())
     txt.append('')
 block('ASBUILT', '\n'.join(txt))
+
+# theorems whose NAME says they are weaker than the clause they stand for (_partial) or that refute a statement (_refuted)
+prows, npart, nref = ['| theorem | Props file | first line of the comment above it |', '|---|---|---|'], 0, 0
+for pf in sorted(glob.glob(os.path.join(root, 'coq', 'Props', '*.v'))):
+    lines = open(pf).read().split('\n')
+    for i, l in enumerate(lines):
+        m = re.match(r'\s*Theorem\s+([A-Za-z0-9_\']+)', l)
+        if not m or not re.search(r'_(partial|refuted)(_|$)', m.group(1)):
+            continue
+        if re.search(r'_partial(_|$)', m.group(1)):
+            npart += 1
+        else:
+            nref += 1
+        # the comment block that ends on the last non-blank line before the theorem, if any
+        j = i - 1
+        while j >= 0 and not lines[j].strip():
+            j -= 1
+        first = ''
+        if j >= 0 and lines[j].rstrip().endswith('*)'):
+            k = j
+            while k >= 0 and '(*' not in lines[k]:
+                k -= 1
+            if k >= 0:
+                first = lines[k][lines[k].index('(*') + 2:].replace('*)', '').strip()
+        prows.append('| `%s` | %s | %s |' % (m.group(1), os.path.basename(pf), first.replace('|', '/')[:260] or '—'))
+block('PARTIALS', '%d theorems: %d named `…_partial`, %d named `…_refuted`.\n\n' % (npart + nref, npart, nref) + '\n'.join(prows))
 
 open(D, 'w').write(s)
 print('DESIGN.md tables refreshed: %d fixed, %d known' % (len(fixed), len(known)))
